@@ -52,6 +52,8 @@ def lit_prql(kind, v):
         return str(v)
     if kind == "bool":
         return "true" if v else "false"
+    if kind == "temporal":
+        return "@" + v[1]
     if kind == "float":
         num, k = v
         f = Fraction(num, 2 ** k)
@@ -117,6 +119,8 @@ def coq(t):
             return "(PLit (LInt %d))" % v
         if kind == "bool":
             return "(PLit (LBool %s))" % ("true" if v else "false")
+        if kind == "temporal":
+            return "(PLit (LTemporal %d%%N ([%s]%%N : list N)))" % (v[0], "; ".join(str(ord(ch)) for ch in v[1]))
         return "(PLit (LFloat %s %d%%N))" % ("(%d)" % v[0], v[1])
     if k == "bin":
         return "(PBinE B_%s %s %s)" % (t[1], coq(t[2]), coq(t[3]))
@@ -320,6 +324,29 @@ def case_cases():
         for v1 in (B(True), B(False), N):
             out.append(("case", [(c1, v1)]))
             out.append(("un", "Not", ("case", [(c1, v1), (B(True), B(not v1[2]) if v1[1] == "bool" else B(False))])))
+    return out
+
+
+def temporal_cases():
+    """date / time / timestamp literals (kind 0 / 1 / 2, as spelled) under everything static_eval looks at: `==` / `!=`
+    of equal and different spellings and kinds, against null, inside && / || / ?? / case.  No value model: these cases
+    feed the RQ correspondence (what the resolver hands to the SQL back end), not the value oracle"""
+    T = lambda k, s_: ("lit", "temporal", (k, s_))
+    B = lambda b: ("lit", "bool", b)
+    N = ("lit", "null", None)
+    a, b = ("col", 0), ("col", 1)
+    d1, d2 = T(0, "2020-01-01"), T(0, "2021-12-31")
+    t1 = T(1, "08:30:00")
+    z1, z2 = T(2, "2020-01-01T00:00:00Z"), T(2, "2020-01-01T00:00:00+00:00")
+    out = []
+    for x, y in ((d1, d1), (d1, d2), (t1, t1), (z1, z1), (z1, z2), (d1, z1), (d1, N), (N, z1), (d1, a), (a, t1)):
+        for op in ("Eq", "Ne"):
+            out.append(("bin", op, x, y))
+        out.append(("bin", "And", ("bin", "Eq", x, y), ("bin", "Gt", a, ("lit", "int", 0))))
+        out.append(("case", [(("bin", "Eq", x, y), a), (B(True), b)]))
+    out += [("bin", "Coalesce", N, d1), ("bin", "Coalesce", d1, N), ("case", [(B(False), d1), (B(True), d2)]), ("case", [(B(True), z1)]),
+            ("bin", "Or", ("bin", "Ne", z1, z2), ("bin", "Lt", a, b)), ("un", "Not", ("bin", "Eq", d1, d1)), ("bin", "Lt", d1, d2),
+            ("in", d1, d1, d2)]
     return out
 
 
@@ -645,6 +672,8 @@ def eval_doc(t, env):
             return t[2]
         if t[1] == "bool":
             return b2v(t[2])
+        if t[1] == "temporal":
+            raise Undef()      # no value in the model (Model/EvalDoc.v lit_eval)
         return Fraction(t[2][0], 2 ** t[2][1])
     if k == "bin":
         op = t[1]
